@@ -587,6 +587,42 @@ pub fn enumerate_inputs(ctx: &Ctx, visit: Visit, shrink: usize) {
         });
         ctx.space("R5: OPT record with every option code 0..=65535 x 6 payloads (empty, zeros, non-zero, option-shaped) x {alone, after a cookie, before another option}", total.load(std::sync::atomic::Ordering::Relaxed), "complete");
     }
+    // R9: two fields in different regions of one message: every flags word x every byte of the
+    // OPT record's TTL (extended RCODE, version, flag bytes), OPT in the additional section and
+    // as an answer
+    {
+        let words: Vec<u32> = (0..=65535u32).collect();
+        let chunks: Vec<&[u32]> = words.chunks(512).collect();
+        let total = std::sync::atomic::AtomicU64::new(0);
+        par_shards(ctx, &chunks, |ws, t: &mut Tally| {
+            let mut n = 0u64;
+            for &w in ws.iter() {
+                // the full byte range for words with the reserved bit clear, boundary bytes otherwise
+                let full = w & 0x0040 == 0;
+                for ext in 0..=255u16 {
+                    if !full && !matches!(ext, 0 | 1 | 0x7f | 0x80 | 0xff) {
+                        continue;
+                    }
+                    for (vi, ttl) in [[ext as u8, 0, 0, 0], [ext as u8, 0xff, 0x80, 0], [0, ext as u8, 0, 0], [0xff, 0, ext as u8, ext as u8]].iter().enumerate() {
+                        if vi > 1 && w & 0x7ff0 != 0 {
+                            continue;
+                        }
+                        let section = if vi == 1 && w & 0x0400 != 0 { 1 } else { 3 };
+                        let mut counts = [0u16; 4];
+                        counts[section] = 1;
+                        let mut m = header(w as u16, counts);
+                        m.extend_from_slice(&[0, 0, 41, 0x04, 0xd0]);
+                        m.extend_from_slice(ttl);
+                        m.extend_from_slice(&[0, 0]);
+                        n += 1;
+                        visit(&m, t);
+                    }
+                }
+            }
+            total.fetch_add(n, std::sync::atomic::Ordering::Relaxed);
+        });
+        ctx.space("R9: every 16-bit flags word (reserved bit clear) x every value of the OPT TTL's extended-RCODE byte (with zero and non-zero version / flag bytes), every RCODE nibble x every version byte and flag bytes; boundary bytes for words with the reserved bit set", total.load(std::sync::atomic::Ordering::Relaxed), "complete");
+    }
     // R6: every TYPE code x class x short generic RDATA bodies
     {
         let codes: Vec<u32> = if shrink == 0 { (0..=65535u32).collect() } else { (0..=300u32).chain(32760..=32780).chain(65270..=65535).collect() };
@@ -644,6 +680,16 @@ pub fn enumerate_inputs(ctx: &Ctx, visit: Visit, shrink: usize) {
                 p.additional.push(RefRR { name: RefName::txt("t.example"), class: 1, cache_flush: true, ttl: 6, rdata: gen::rdata_with_names(33, &[n.clone()]) });
                 visit(&p.encode(0), t);
                 visit(&p.encode_compressed(0, true), t);
+                // and, for names of <= 2 labels, as the owner and every RDATA name of every name-bearing type
+                if n.0.len() <= 2 {
+                    for sch in SCHEMAS {
+                        if ![2u16, 5, 12, 15, 33, 41].contains(&sch.code) && sch.fields.iter().any(|(_, k)| matches!(k, Kind::Name(_))) {
+                            let mut p = RefPacket { id: 0x8889, flags: F_QR, ..Default::default() };
+                            p.answers.push(RefRR { name: n.clone(), class: 1, cache_flush: false, ttl: 5, rdata: gen::rdata_with_names(sch.code, &[n.clone()]) });
+                            visit(&p.encode_compressed(0, true), t);
+                        }
+                    }
+                }
             }
         });
         ctx.space("R8: dictionary names: every sequence of <= 3 labels over 32 labels with a conventional meaning (local, arpa, in-addr, ip6, _tcp, _udp, _services, _dns-sd, _sub, localhost, xn--..., *, digits) plus 20 well-known full names, as question, owner, PTR and SRV target, plain and compressed", names.len() as u64 * 2, "complete");
